@@ -1,0 +1,43 @@
+//go:build verif
+
+package gomatrixserverlib
+
+// Contracts for gvc (comment-only; compiled only with -tags verif and then adds no code).
+
+//@ func (*PowerLevelContent).UserLevel
+//@   property C08
+//@   requires c != nil
+//@   ensures level: result == UL(*c, senderID)
+//@   assigns nothing
+
+//@ func (*PowerLevelContent).EventLevel
+//@   property C08
+//@   requires c != nil
+//@   ensures level: result == ELstate(*c, eventType, isState)
+//@   assigns nothing
+
+//@ func (*PowerLevelContent).NotificationLevel
+//@   property C08
+//@   requires c != nil
+//@   ensures level: result == NL(*c, notification)
+//@   assigns nothing
+
+//@ func checkEventLevels
+//@   property C08
+//@   ensures ban: err == nil ==> levelOK(senderLevel, oldPowerLevels.Ban, newPowerLevels.Ban)
+//@   ensures invite: err == nil ==> levelOK(senderLevel, oldPowerLevels.Invite, newPowerLevels.Invite)
+//@   ensures kick: err == nil ==> levelOK(senderLevel, oldPowerLevels.Kick, newPowerLevels.Kick)
+//@   ensures redact: err == nil ==> levelOK(senderLevel, oldPowerLevels.Redact, newPowerLevels.Redact)
+//@   ensures state_default: err == nil ==> levelOK(senderLevel, oldPowerLevels.StateDefault, newPowerLevels.StateDefault)
+//@   ensures events_default: err == nil ==> levelOK(senderLevel, oldPowerLevels.EventsDefault, newPowerLevels.EventsDefault)
+//@   ensures users_default: err == nil ==> levelOK(senderLevel, oldPowerLevels.UsersDefault, newPowerLevels.UsersDefault)
+//@   ensures events-new: err == nil ==> (forall t string :: t in newPowerLevels.Events ==> levelOK(senderLevel, EL(oldPowerLevels, t), EL(newPowerLevels, t)))
+//@   ensures events-old: err == nil ==> (forall t string :: t in oldPowerLevels.Events ==> levelOK(senderLevel, EL(oldPowerLevels, t), EL(newPowerLevels, t)))
+//@   loop 1: invariant namedLevels(levelChecks, oldPowerLevels, newPowerLevels)
+//@   loop 1: invariant forall t string :: seen(1)[t] ==> hasPair(levelChecks, EL(oldPowerLevels, t), EL(newPowerLevels, t))
+//@   loop 2: invariant namedLevels(levelChecks, oldPowerLevels, newPowerLevels)
+//@   loop 2: invariant forall t string :: t in newPowerLevels.Events ==> hasPair(levelChecks, EL(oldPowerLevels, t), EL(newPowerLevels, t))
+//@   loop 2: invariant forall t string :: seen(2)[t] ==> hasPair(levelChecks, EL(oldPowerLevels, t), EL(newPowerLevels, t))
+//@   loop 3: invariant 0 <= idx(3) && idx(3) <= len(levelChecks)
+//@   loop 3: invariant forall j int :: 0 <= j && j < idx(3) ==> levelOK(senderLevel, levelChecks[j].old, levelChecks[j].new)
+//@   assigns nothing
